@@ -485,7 +485,7 @@ func (p *Prog) resolveRole(role string) (*ssa.Function, error) {
 			// walks the struct)
 			if p.callsFn(f, w) && f != w {
 				for _, ci := range Calls(f) {
-					if cal := ci.Common().StaticCallee(); cal != nil && cal.Name() == "isStruct" && p.InTarget(cal) {
+					if cal := ci.Common().StaticCallee(); cal != nil && p.InTarget(cal) && cal != w && len(cal.Params) == 1 && TypeStr(cal.Params[0].Type()) == "reflect.Type" && cal.Signature.Results().Len() == 1 && TypeStr(cal.Signature.Results().At(0).Type()) == "bool" {
 						c = append(c, f)
 					}
 				}
